@@ -685,7 +685,7 @@ impl ExecutionError {
 pub mod ast {
     use super::*;
     macro_rules! opaque_kind {
-        ($name:ident) => { verus! { pub struct $name<'i> { pub ph: PhantomData<&'i u8> } } };
+        ($name:ident) => { verus! { pub struct $name<'i> { pub x: u64, pub ph: PhantomData<&'i u8> } } };
     }
     opaque_kind!(Call); opaque_kind!(Ap); opaque_kind!(ApMap); opaque_kind!(Canon); opaque_kind!(CanonMap); opaque_kind!(CanonStreamMapScalar);
     opaque_kind!(Seq); opaque_kind!(Par); opaque_kind!(Xor); opaque_kind!(Match); opaque_kind!(MisMatch); opaque_kind!(Fail); opaque_kind!(New);
